@@ -330,6 +330,8 @@ def h_content(k0: int, k1: int, s: int, i: int, flag: bool, two: bool) -> bool:
         if ok:
             for a, b in zip(loaded, muts):
                 ok = ok and type(a) is type(b) and str(a) == str(b)
+                # the loaded mutation carries the same arguments (what the SQL is generated from)
+                ok = ok and _expr_eq(dict(vars(a)), dict(vars(b)))
         if ok and not two:
             ok = _sim(loaded) == _sim(muts)
     return hx.verdict(ok, True)
